@@ -3,12 +3,13 @@ package main
 // Evaluation of contract expressions in a symbolic state.
 
 import (
-	"os"
 	"fmt"
 	"go/constant"
 	"go/token"
 	"go/types"
 	"math/big"
+	"os"
+	"runtime/debug"
 	"strings"
 
 	"golang.org/x/tools/go/ssa"
@@ -22,6 +23,7 @@ const (
 )
 
 type Eval struct {
+	altPkg *types.Package // package of the callee whose contract is applied (fallback scope for type names)
 	v     *Verifier
 	st    *State
 	old   *State
@@ -65,6 +67,9 @@ func (v *Verifier) newEval(s *State, fn *ssa.Function, fc *frameCells, mode int)
 }
 
 func (ev *Eval) fail(format string, a ...interface{}) {
+	if os.Getenv("GOVC_DEBUG") == "stale" {
+		debug.PrintStack()
+	}
 	panic(abortExec{"CONTRACT-STALE: " + fmt.Sprintf(format, a...)})
 }
 
@@ -406,6 +411,14 @@ func (ev *Eval) resolveType(name string) types.Type {
 						}
 					}
 				}
+			}
+		}
+	}
+	if ev.altPkg != nil && ev.altPkg != ev.pkg {
+		// a callee's contract applied at a call site in another package: type names of the callee's own package
+		if o := ev.altPkg.Scope().Lookup(name); o != nil {
+			if tn, ok := o.(*types.TypeName); ok {
+				return tn.Type()
 			}
 		}
 	}
@@ -1460,7 +1473,6 @@ func inferPatterns(vars []*Term, body *Term) [][]*Term {
 	return nil
 }
 
-
 // assignGhost stores a value into a ghost field (x.g) or ghost global.
 func (ev *Eval) assignGhost(lhs *Expr, val *Value) {
 	s := ev.st
@@ -1489,7 +1501,6 @@ func (ev *Eval) assignGhost(lhs *Expr, val *Value) {
 	}
 	ev.fail("ghost assignment target %q is not a ghost variable or ghost field", lhs.Text)
 }
-
 
 func mentionsNewConst(t *Term, mark int) bool {
 	seen := map[int]bool{}
